@@ -570,7 +570,19 @@ pub fn replay(rp: &Value) -> i32 {
             init[k] = v.clone();
         }
     }
-    let run = session_init(init, |obs| cmds.get(obs.len()).cloned(), Duration::from_secs(20), cmds.len());
+    let run = session_init(
+        init,
+        |obs| {
+            let c = cmds.get(obs.len()).cloned()?;
+            if c["op"] == "focus_worker" {
+                let main_in_focus = obs.last().map(|o| o["res"]["tid"].as_i64() == o["pid"].as_i64()).unwrap_or(true);
+                return Some(json!({"op": "thread", "num": if main_in_focus { 2 } else { 1 }}));
+            }
+            Some(c)
+        },
+        Duration::from_secs(20),
+        cmds.len(),
+    );
     for o in &run.obs {
         println!("{} -> {} events {} tasks {} threads {}", o["cmd"], o["res"], o["events"], o["tasks"], o["threads"]);
     }
@@ -683,7 +695,12 @@ pub fn part_c11_attach(tier: Tier) -> Part {
     }
     if tier == Tier::Thorough {
         prefixes.push(("bp-in-worker-x4".into(), vec![bp("bump.1"), json!({"op": "continue"}), json!({"op": "continue"}), json!({"op": "continue"}), json!({"op": "continue"})]));
-        prefixes.push(("stepi-after-attach".into(), vec![json!({"op": "stepi"}), json!({"op": "stepi"})]));
+        // in the worker: the main thread may be waiting in futex(2) for a thread that the attach has
+        // stopped, and a step of that thread alone can never finish (not a defect: by design only
+        // the thread in focus is stepped)
+        // (thread numbers after an attach follow the order of /proc/<pid>/task as the debugger met
+        // it: "focus_worker" is resolved by the script below to a thread that is not the main one)
+        prefixes.push(("stepi-after-attach".into(), vec![json!({"op": "thread", "num": 1}), json!({"op": "focus_worker"}), json!({"op": "stepi"}), json!({"op": "stepi"})]));
     }
     for (pname, prefix) in &prefixes {
         for term in ["detach", "drop"] {
@@ -694,7 +711,18 @@ pub fn part_c11_attach(tier: Tier) -> Part {
             // be over before the debugger is attached; that says nothing, try again
             // the program may also run to its end inside a `continue` (the attach came late and the
             // breakpoint was already behind every thread): then the history is over
-            let script = |obs: &[Value]| if obs.last().map(|o| kind(o) == "exit").unwrap_or(false) { None } else { cmds.get(obs.len()).cloned() };
+            let script = |obs: &[Value]| {
+                if obs.last().map(|o| kind(o) == "exit").unwrap_or(false) {
+                    return None;
+                }
+                let c = cmds.get(obs.len()).cloned()?;
+                if c["op"] == "focus_worker" {
+                    // thread 1 was put in focus by the command before: if that is the main thread, take number 2
+                    let main_in_focus = obs.last().map(|o| o["res"]["tid"].as_i64() == o["pid"].as_i64()).unwrap_or(true);
+                    return Some(json!({"op": "thread", "num": if main_in_focus { 2 } else { 1 }}));
+                }
+                Some(c)
+            };
             let mut run = session_init(json!({"exe": built.exe, "args": [], "attach": true, "attach_delay_ms": 25}), script, Duration::from_secs(15), cmds.len());
             for _ in 0..3 {
                 if !run.crashed.as_ref().map(|c| c.contains("launch_error")).unwrap_or(false) {
